@@ -63,3 +63,23 @@ func TestPPTXTableInGroup(t *testing.T) {
 		t.Fatalf("text of a table inside a group shape is missing: %q", txt)
 	}
 }
+
+// C18 / R18.17: the slide list of the presentation (resolved through its relationships) says which parts are slides,
+// and parseSlides follows it for any part name; validate() however refused the package before that unless some member
+// was called ppt/slides/slide*.xml, so a deck whose slide parts have other names or live elsewhere could not be opened.
+func TestPPTXSlidePartsWithOtherNames(t *testing.T) {
+	p := zipOf(t, "deck.pptx", [][2]string{
+		{"[Content_Types].xml", `<?xml version="1.0"?><Types xmlns="http://schemas.openxmlformats.org/package/2006/content-types"><Default Extension="xml" ContentType="application/xml"/></Types>`},
+		{"ppt/presentation.xml", `<?xml version="1.0"?><p:presentation xmlns:p="http://schemas.openxmlformats.org/presentationml/2006/main" xmlns:r="http://schemas.openxmlformats.org/officeDocument/2006/relationships"><p:sldIdLst><p:sldId id="256" r:id="rId2"/><p:sldId id="257" r:id="rId1"/></p:sldIdLst></p:presentation>`},
+		{"ppt/_rels/presentation.xml.rels", `<?xml version="1.0"?><Relationships xmlns="http://schemas.openxmlformats.org/package/2006/relationships"><Relationship Id="rId1" Type="http://schemas.openxmlformats.org/officeDocument/2006/relationships/slide" Target="slides/outro.xml"/><Relationship Id="rId2" Type="http://schemas.openxmlformats.org/officeDocument/2006/relationships/slide" Target="deck/intro.xml"/></Relationships>`},
+		{"ppt/slides/outro.xml", slideXML("SECOND-SHOWN")},
+		{"ppt/deck/intro.xml", slideXML("FIRST-SHOWN")},
+	})
+	txt, _, err := tabula.Open(p).Text()
+	if err != nil {
+		t.Fatal(err)
+	}
+	if i, j := strings.Index(txt, "FIRST-SHOWN"), strings.Index(txt, "SECOND-SHOWN"); i < 0 || j < 0 || i > j {
+		t.Fatalf("slides not in the order of the presentation's slide list: %q", txt)
+	}
+}
